@@ -176,9 +176,11 @@ impl FixNum for E {
 }
 
 fn rand_sep(r: &mut Rng) -> String {
-    match r.below(8) {
+    match r.below(11) {
         0 => " ".into(), 1 => "\t".into(), 2 => "\r\n".into(), 3 => "  \n ".into(),
-        4 => "{ c }".into(), 5 => "{ a { nested } 'q' // }".into(), 6 => "// line ' { \n".into(), _ => " {}{}\t".into(),
+        4 => "{ c }".into(), 5 => "{ a { nested } 'q' // }".into(), 6 => "// line ' { \n".into(), 7 => " {}{}\t".into(),
+        // non-ASCII inside comments (multi-byte characters must not disturb the cursor)
+        8 => "{größe €}".into(), 9 => "// ∑ commentaire é\n".into(), _ => "{日本{語}}".into(),
     }
 }
 fn rand_case(r: &mut Rng, s: &str) -> String { s.chars().map(|c| if r.chance(1, 2) { c.to_ascii_uppercase() } else { c.to_ascii_lowercase() }).collect() }
